@@ -230,7 +230,13 @@ def load_performance(
         performance[0].sustain_pedal_threshold = pedal_threshold
 
         if first_note_at_zero:
-            remove_silence_from_performed_part(performance[0])
+            # the parts stay together: all are shifted by the onset of
+            # the first note of the performance
+            first_onsets = [n["note_on"] for ppart in performance for n in ppart.notes]
+            if first_onsets:
+                start_time = min(first_onsets)
+                for ppart in performance:
+                    remove_silence_from_performed_part(ppart, start_time=start_time)
 
     except Exception as e:
         exception_dictionary["midi"] = e
